@@ -353,11 +353,33 @@ def _structural(u, blk):
 
 
 def shards(tier):
-    return [{"kind": "streams", "i": i} for i in range(16)]
+    return [{"kind": "streams", "i": i} for i in range(15)] + [{"kind": "persistent"}]
+
+
+def run_persistent(res, tier, seed):
+    """an address the node keeps dialling answers EVERY connection with garbage (or hangs up at once), for the whole retry
+    schedule (2,881 connections, the real constants): no exception may leave the node's event handling or manager steps, and a
+    well-behaved bystander is still served throughout"""
+    from vf.props.c19 import long_dead_peer
+    for mode in (["garbage"] if tier == "quick" else ["garbage", "close", "refuse"]):
+        out = long_dead_peer(mode, bystander=True)
+        res.evaluations += len(out["attempts"])
+        res.disjoint += len(out["attempts"])
+        res.count("persistent_garbage_connections:" + mode, len(out["attempts"]))
+        case = {"persistent": mode}
+        if out["escaped"]:
+            res.fail("escape", "exception-escaped:" + out["escaped"][0][1].split("(")[0], "an address that answers every connection with %s: at its connection #%d an exception left the node's event handling / manager step (in production it ends LocalPeer.run()): %s" % (
+                mode, len(out["attempts"]), out["escaped"][0][1]), case)
+        if out["unserved"]:
+            res.fail("bystander", "bystander-not-served", "while an address answered every connection with %s a bystander's request went unanswered %d time(s)" % (mode, out["unserved"]), case)
+    res.sample({"persistent_malformed_peer": "2,881 connections that all end in garbage; bystander polled every 200 connections"})
+    return res
 
 
 def run(shard, tier, seed):
     res = Result()
+    if shard["kind"] == "persistent":
+        return run_persistent(res, tier, seed)
     u = Universe(env.subseed(seed, ID, "uni", shard["i"] % 4))
     u.simnet.install()
     from skepticoin.networking import messages as M
@@ -379,6 +401,8 @@ def run(shard, tier, seed):
 def replay(case):
     import random
     res = Result()
+    if "persistent" in case:
+        return run_persistent(res, "thorough" if case["persistent"] != "garbage" else "quick", 1).failures
     u = Universe(env.subseed(1, ID, "uni", 0))
     u.simnet.install(random.Random(0))
     from skepticoin.networking import messages as M
